@@ -196,8 +196,11 @@ impl varlink::Interface for ScriptIface {
                     ret = Err(varlink::context!(varlink::ErrorKind::Generic));
                     break;
                 }
-                "r" | "R" | "e" => {
-                    let reply = if s == "e" {
+                "r" | "R" | "e" | "n" => {
+                    let reply = if s == "n" {
+                        // what CallTrait::reply_method_not_implemented builds is sent through the helper itself below
+                        Reply::parameters(None)
+                    } else if s == "e" {
                         Reply::error(
                             "org.example.script.ScriptError",
                             Some(json!({"step": pos, "tok": tok})),
@@ -205,7 +208,8 @@ impl varlink::Interface for ScriptIface {
                     } else {
                         Reply::parameters(Some(json!({"step": pos, "tok": tok})))
                     };
-                    match call.reply_struct(reply) {
+                    let sent = if s == "n" { call.reply_method_not_implemented(req.method.to_string()) } else { call.reply_struct(reply) };
+                    match sent {
                         Ok(()) => results.push("ok".into()),
                         Err(e) => {
                             let cls = match e.kind() {
